@@ -688,7 +688,20 @@ func c08Atlas(s *sut.SUT, c *ev.Check) {
 			return
 		}
 		if r.Exit == 0 {
-			c.Violation("silent|atlas|"+cs.fault, fmt.Sprintf("%s: the fault on host %d of %d was injected but the run exited 0 (stderr: %s)", label, cs.k+1, cs.n, short(bytes.TrimSpace(r.Stderr), 160)), rp)
+			// a line "beyond the reader's limit" is a fault only for a reader whose limit it exceeds: when the same
+			// binary redacts that payload from a plain file without complaint, the line is an ordinary line for it
+			// and the Atlas run may succeed too - with every per-host output complete
+			withinLimit := false
+			if cs.fault == "over-long-line" && cs.k >= 0 && cs.k < len(raws) && raws[cs.k] != nil {
+				if want, ok := expectRedaction(s, flags, raws[cs.k]); ok {
+					got, _ := os.ReadFile(fmt.Sprintf("%s.%d", outp, cs.k))
+					withinLimit = bytes.Equal(got, want)
+					c.Count("atlas_long_lines_within_the_reader_limit", 1)
+				}
+			}
+			if !withinLimit {
+				c.Violation("silent|atlas|"+cs.fault, fmt.Sprintf("%s: the fault on host %d of %d was injected but the run exited 0 (stderr: %s)", label, cs.k+1, cs.n, short(bytes.TrimSpace(r.Stderr), 160)), rp)
+			}
 		}
 		downloadFault := cs.fault == "cut-half" || cs.fault == "status-500" || cs.fault == "reset-before-headers"
 		for i := 0; i < cs.n; i++ {
